@@ -19,6 +19,10 @@ from vlib.libconst import poll, retry_pause
 GATED_VERBS = ("SPACK", "GETWC", "SETWC", "REQRM")
 
 
+class BuilderFailed(Exception):
+    """raised by a request builder on purpose (an out-of-range value reaching struct.pack does this)"""
+
+
 class Call:
     __slots__ = ("kind", "N", "t_invoke", "creates", "tx", "t_return", "result", "task", "engine", "exc")
 
@@ -139,6 +143,13 @@ class EngineMonitor:
             if c.t_return is None:
                 sh.violation("C06:caller-never-completes", f"{c.engine} call ({c.kind}) invoked at {c.t_invoke:.2f} never returned", wit)
                 continue
+            if isinstance(c.exc, BuilderFailed):
+                # the caller's own builder failed: the call raises that to its caller; what matters is
+                # that everybody else is still served (checked through their own records)
+                sh.count("calls_whose_builder_failed")
+                if c.tx:
+                    sh.violation("C06:raise", "a call whose request builder raised still transmitted", wit)
+                continue
             if c.exc is not None and not isinstance(c.exc, asyncio.CancelledError):
                 d = describe_exc(c.exc)
                 sh.violation("C06:raise", f"{c.engine} raised {d['type']}: {d['msg']}", dict(wit, exc=d))
@@ -235,6 +246,7 @@ async def level1(sh, rig, r, regime, label):
         "watercare": lambda: p.get(lambda: D.GeckoWatercareProtocolHandler.request(seq(), parms=spa.sendparms), None, r.choice([1, 4])),
         "reminders": lambda: p.get(lambda: D.GeckoRemindersProtocolHandler.request(seq(), parms=spa.sendparms), None, 3),
         "keypress": lambda: p.get(lambda: D.GeckoPackCommandProtocolHandler.keypress(p.get_and_increment_sequence_counter(True), spa.pack_type, 1, parms=spa.sendparms), None, 2),
+        "badbuilder": lambda: p.get(lambda: (_ for _ in ()).throw(BuilderFailed("value out of range for its field")), None, r.choice([1, 3])),
         "refresh": lambda: spa.struct.get(p, lambda: D.GeckoStatusBlockProtocolHandler.request(seq(), 256, r.choice([39, 100, 479]), parms=spa.sendparms), r.choice([1, 3])),
     }
     ncall = r.choice([1, 2, 3, 5, 8, 12])
@@ -266,6 +278,23 @@ async def level1(sh, rig, r, regime, label):
 
         bg = [asyncio.ensure_future(other_loop(r.choice([0.7, 1.3, 3.1, 5.0]))) for _ in range(r.choice([1, 3]))]
         sh.count("scenarios_with_other_sleepers")
+    if r.random() < 0.4:
+        # the timing profile is switched while callers pause between retries (any pump or blower
+        # change does that): pauses are cut short, never restarted - the duration bound stands
+        from geckolib.config import set_config_mode
+
+        async def switcher():
+            on = False
+            while True:
+                await asyncio.sleep(r.choice([0.7, 1.1, 1.9, 3.0]))
+                on = not on
+                try:
+                    set_config_mode(on)
+                except (AssertionError, AttributeError):
+                    pass  # nobody has slept yet
+
+        bg.append(asyncio.ensure_future(switcher()))
+        sh.count("scenarios_with_profile_switches_during_pauses")
     for i in range(ncall):
         k = r.choice(list(kinds))
         tasks.append(asyncio.ensure_future(kinds[k]()))
@@ -502,6 +531,7 @@ def main(tier, seed):
     run.need(run.counters.get("calls_answered", 0) > 300 and run.counters.get("calls_failed", 0) > 50, "too few answered/failed calls")
     run.need(run.counters.get("api_calls_gate_closed", 0) > 10, "the gate was hardly ever closed at an API call")
     run.need(run.counters.get("api_calls_gate_closed_active_profile", 0) > 5, "the gate was hardly ever closed at an API call under the active timing profile")
+    run.need(run.counters.get("calls_whose_builder_failed", 0) > 10, "too few calls whose request builder failed")
     run.need(run.counters.get("profile_switches_during_an_outage", 0) > 5, "the timing profile was hardly ever switched during an outage")
     run.need(run.counters.get("callers_cancelled_by_owner", 0) > 10, "too few callers cancelled by their owner")
     run.need(run.counters.get("gated_datagrams_attributed", 0) > 20, "too few gated datagrams observed")
